@@ -107,15 +107,12 @@ theorem finishConnectOne_retry (c : CS) : SameRetry c (finishConnectOne c).1 := 
   apply SameRetry.mk'
   unfold finishConnectOne; grind
 
-theorem connectOne_retry (c : CS) : SameRetry c (connectOne c).1 := by
-  apply SameRetry.mk'
-  have := fun c => (finishConnectOne_retry c).flat
-  unfold connectOne; grind
+theorem _root_.Pm.Dev2.WalkFrame.sameRetry {c c' : CS} (h : WalkFrame c c') : SameRetry c c' :=
+  ⟨⟨h.now, h.dev.timeout, h.dev.scripts⟩, h.dev.retryCount, h.dev.lastRetry⟩
 
-theorem tcpConnect_retry (c : CS) : SameRetry c (tcpConnect c).1 := by
-  apply SameRetry.mk'
-  have := fun c => (connectOne_retry c).flat
-  unfold tcpConnect; grind
+theorem connectOne_retry (c : CS) : SameRetry c (connectOne c).1 := (connectOne_frame c).sameRetry
+
+theorem tcpConnect_retry (c : CS) : SameRetry c (tcpConnect c).1 := (tcpConnect_frame c).sameRetry
 
 theorem pipeConnect_retry (c : CS) : SameRetry c (pipeConnect c).1 := by
   apply SameRetry.mk'
@@ -249,9 +246,7 @@ theorem telnetFilter_fields (d : Dev) (bs : Bytes) : (telnetFilter d bs).timeout
     (telnetFilter d bs).retryCount = d.retryCount ∧ (telnetFilter d bs).lastRetry = d.lastRetry := by
   unfold telnetFilter; exact ⟨rfl, rfl, rfl, rfl⟩
 
-theorem readyConnectFail_retry (c : CS) : SameRetry c (readyConnectFail c) := by
-  apply SameRetry.mk'
-  unfold readyConnectFail; grind
+theorem readyConnectFail_retry (c : CS) : SameRetry c (readyConnectFail c) := (finishConnectFail_frame c).sameRetry
 
 theorem readyConnectTail_retry (c : CS) : SameRetry c (readyConnectTail c).1 := by
   apply SameRetry.mk'
@@ -259,6 +254,8 @@ theorem readyConnectTail_retry (c : CS) : SameRetry c (readyConnectTail c).1 := 
 
 theorem readyConnect_retry (c : CS) : SameRetry c (readyConnect c).1 := by
   unfold readyConnect
+  split
+  · exact SameRetry.mk' ⟨rfl, rfl, rfl, rfl, rfl⟩
   refine SameRetry.trans ?_ (readyConnectTail_retry _)
   split
   · exact finishConnectOne_retry c
@@ -403,7 +400,7 @@ theorem failAll_timer (rest : List Action) (c : CS) (a : Action) (o : Oracle) (o
     have hc2' : c.dev.conn = 2 := by simpa using hc2
     intro hna
     refine ⟨?_, reconnectDev_backCov _ _⟩
-    have := reconnectDev_queue { c with dev := { c.dev with acts := [] } } tmo rfl (by simp [hc2']) hna
+    have := reconnectDev_queue { c with dev := { c.dev with acts := [], xmStr := none, xmResult := false, xmUsed := false } } tmo rfl (by simp [hc2']) hna
     intro h r hh
     rcases this with h1 | ⟨h1, h2, h3⟩
     · rw [h1] at hh; cases hh
@@ -539,7 +536,7 @@ theorem failAll_now (rest : List Action) (c : CS) (a : Action) (o : Oracle) (out
   unfold failAll
   dsimp only
   split
-  · exact (reconnectDev_clock { c with dev := { c.dev with acts := [] } } tmo).sameNow
+  · exact (reconnectDev_clock { c with dev := { c.dev with acts := [], xmStr := none, xmResult := false, xmUsed := false } } tmo).sameNow
   · exact ⟨rfl, rfl⟩
 
 theorem onRunStep_now (rest : List Action) (c : CS) (a : Action) (o : Oracle) (out : List Out) (tmo : Option Time)
@@ -643,7 +640,7 @@ theorem failAll_queue (rest : List Action) (c : CS) (a : Action) (o : Oracle) (o
   · rename_i hc2
     have hc2' : c.dev.conn = 2 := by simpa using hc2
     simp only [hc2, ↓reduceIte] at hna
-    exact reconnectDev_queue { c with dev := { c.dev with acts := [] } } tmo rfl (by simp [hc2']) hna
+    exact reconnectDev_queue { c with dev := { c.dev with acts := [], xmStr := none, xmResult := false, xmUsed := false } } tmo rfl (by simp [hc2']) hna
   · exact Or.inl rfl
 
 /-- a pass in which `poll` reports nothing for the device (it was woken by the timer, or by somebody else) and the device
@@ -1027,9 +1024,16 @@ theorem rewind_keeps (a : Action) : (rewind a).timeStamp = a.timeStamp ∧ (rewi
     (rewind a).arglist = a.arglist ∧ (rewind a).telemetry = a.telemetry := by
   unfold rewind; split <;> exact ⟨rfl, rfl, rfl, rfl⟩
 
-theorem readyConnect_acts (c : CS) (h2 : (readyConnect c).1.dev.conn = 2) :
+theorem readyConnect_acts (c : CS) (h1 : c.dev.conn = 1) (h2 : (readyConnect c).1.dev.conn = 2) :
     (readyConnect c).1.dev.acts = (enqueueLogin c.dev).acts := by
   unfold readyConnect at h2 ⊢
+  split at h2
+  · rename_i hp
+    exfalso
+    have : c.dev.conn = 2 := h2
+    omega
+  rename_i hp
+  simp only [hp, Bool.false_eq_true, ↓reduceIte]
   have ha := finishConnectOne_acts c
   have hs := (finishConnectOne_retry c).scripts
   generalize finishConnectOne c = r at *
@@ -1051,10 +1055,8 @@ theorem readyConnect_acts (c : CS) (h2 : (readyConnect c).1.dev.conn = 2) :
       · rename_i h22; simp at h22; exact absurd hc2 h22
   cases ok
   · simp only [Bool.false_eq_true, ↓reduceIte] at h2 ⊢
-    have h0 : (readyConnectFail c1).dev.conn = 0 := by unfold readyConnectFail; split <;> rfl
-    exfalso
-    unfold readyConnectTail at h2
-    simp [h0] at h2
+    exact key (readyConnectFail c1) ((finishConnectFail_frame c1).dev.acts.trans ha)
+      ((finishConnectFail_frame c1).dev.scripts.trans hs) h2
   · simp only [↓reduceIte] at h2 ⊢
     exact key c1 ha hs h2
 
@@ -1082,7 +1084,7 @@ theorem handleReady_connects (c : CS) (h1 : c.dev.conn = 1) (h2 : (handleReady c
           · rfl
           · rfl
         rw [ht] at h2 ⊢
-        exact readyConnect_acts c h2
+        exact readyConnect_acts c h1 h2
       · simp only [hO, Bool.false_eq_true, ↓reduceIte] at h2 ⊢
         exfalso
         unfold readyTail at h2
@@ -1145,7 +1147,7 @@ theorem failAll_retryLe (rest : List Action) (c : CS) (a : Action) (o : Oracle) 
   unfold failAll
   dsimp only
   split
-  · exact reconnectDev_retryLe { c with dev := { c.dev with acts := [] } } tmo
+  · exact reconnectDev_retryLe { c with dev := { c.dev with acts := [], xmStr := none, xmResult := false, xmUsed := false } } tmo
   · exact Nat.le_refl _
 
 theorem onRunStep_retryLe (rest : List Action) (c : CS) (a : Action) (o : Oracle) (out : List Out) (tmo : Option Time)
